@@ -17,7 +17,7 @@ from vf.common import CaseResult, Check, Scratch, rng_for
 from vf.interpose import Interposer
 
 HISTORIES = ["clean", "orphan_next", "orphan_equal_older", "orphan_equal_newer", "clean_expired"]
-OPS = ["load", "create", "append", "gc", "append_lose_again", "create_listfail_once", "create_listfail_persistent", "load_listfail_persistent"]
+OPS = ["load", "create", "append", "gc", "append_lose_again", "create_listfail_once", "create_listfail_persistent", "load_listfail_persistent", "create_scandirfail_listfail_persistent"]
 
 
 def pointer_grammar(cur: str, old: str, orph: Optional[str], n: int, tier: str) -> List[Tuple[str, str, Optional[bytes]]]:
@@ -269,6 +269,21 @@ class C10(Check):
                                 raise OSError("injected: listing the metadata directory failed")
 
                     ip.before.append(lf_hook)
+                    real_scandir = os.scandir
+                    if "scandirfail" in case["op"]:
+                        # the failure happens one level lower: inside the directory walk of metadata/
+                        ip.before.remove(lf_hook)
+                        mdir = os.path.realpath(os.path.join(root, "metadata"))
+
+                        def scandir(path: Any = ".") -> Any:
+                            if os.path.realpath(os.fsdecode(path)) == mdir:
+                                listfail["n"] += 1
+                                raise PermissionError(13, "Permission denied (injected)", mdir)
+                            return real_scandir(path)
+
+                        os.scandir = scandir  # type: ignore
+                        ip.before.append(lf_hook)
+                        listfail["mode"] = None
                     try:
                         other = tables.schema_of([{"id": 1, "name": "zz", "type": "string", "required": False}], 7)
                         if case["op"].startswith("create"):
@@ -280,6 +295,7 @@ class C10(Check):
                         res.count("listfail_op_raised")
                         wit["listfail_error"] = f"{type(e).__name__}: {str(e)[:100]}"
                     finally:
+                        os.scandir = real_scandir  # type: ignore
                         ip.before.remove(lf_hook)
                         listfail["mode"] = None
                     if listfail["n"] == 0:
